@@ -181,9 +181,12 @@ Proof.
   destruct ok; [apply br_read_loop|apply br_ret].
 Qed.
 
-Lemma br_write_loop fuel k : forall remaining, bracketed (write_loop fuel k remaining).
+Lemma br_bad {A} w : bracketed (bad (X:=ext) (A:=A) w).
+Proof. apply br_of_waits. intros s r s' H. inversion H. exists []. split; [apply extends_refl|constructor]. Qed.
+
+Lemma br_write_loop fuel k : forall hs remaining, bracketed (write_loop fuel hs k remaining).
 Proof.
-  induction fuel as [|f IH]; intros remaining; cbn [write_loop]; [apply br_ret|].
+  induction fuel as [|f IH]; intros hs remaining; cbn [write_loop]; [apply br_bad|].
   destruct (remaining =? 0); [apply br_ret|].
   apply br_bind; [apply br_get_tls|]. intros t.
   destruct (negb ((t_pend t =? -1) || (t_pend t =? remaining))); [apply br_stuck|].
@@ -191,15 +194,16 @@ Proof.
   destruct (res <=? 0).
   - apply br_bind; [apply br_upd_tls|]. intros _.
     apply br_bind; [apply br_handle_result|]. intros ok.
-    destruct (negb ok); [apply br_ret|]. destruct f; [apply br_stuck|apply IH].
+    destruct (negb ok); [apply br_ret|]. destruct hs; [apply br_stuck|apply IH].
   - apply br_bind; [apply br_upd_tls|]. intros _.
-    destruct (remaining <? res); [apply br_stuck|]. destruct f; [apply br_stuck|apply IH].
+    destruct (remaining <? res); [apply br_stuck|]. apply IH.
 Qed.
 
 Lemma br_tls_write k size : bracketed (tls_write k size).
 Proof.
   unfold tls_write. apply br_bind; [apply br_handle_last_error|]. intros ok.
-  destruct ok; [|apply br_ret]. apply br_bind; [apply br_write_loop|]. intros rem. apply br_ret.
+  destruct ok; [|apply br_ret]. apply br_bind; [apply br_quiet, quiet_get_ext|]. intros x.
+  apply br_bind; [apply br_write_loop|]. intros rem. apply br_ret.
 Qed.
 
 Lemma br_handshake_loop fuel k : bracketed (handshake_loop fuel k).
